@@ -23,6 +23,17 @@ frame.  `r.fuzz` / `r.case` are the structured decode fuzz of the protocol types
 name in another case is ignored wherever a foreign member name is), `r.irm` compares
 `InputRequestMap.UnmarshalJSON` with `decodeInputRequests`.
 
+`sse.frn ( <s<key> s<pad> x<value> <l|c>>* ) <l|c> …` is an event stream as a FOREIGN peer frames it (the
+harness writes it: per line LF or CRLF, comments = empty key, any field order, several data lines): the
+monitor `sse_roundtrip_any_eol` compares the implementation's scan with what the stream denotes
+(`FEvent.denote`).  `sse.lines <x<line> <l|c>>* [e x<rest>]` scans arbitrary LF-free lines as framed
+and again ended by LF: `sse_eol_irrelevant` demands equal scans.  `live.cli sse.<framing>` answers a live
+streamable client in one of the harness' foreign framings (a valid response must be accepted).
+`r.pg.new <pagesize>` / `r.pg.add|rm <method> s<uid>…` / `r.pg.list <method> <-|c<uid>|g<string>>` drive a
+real server + session; the driver keeps the registries (sorted keys) and `listPage` gives the page; the
+observation is the list member AS WRITTEN (`arr n uids nc uid` / `null` / `missing` / `error`), judged by
+`required_lists_present` with the cursor's position in the clause.
+
 Token forms (blank-separated): JVal `z t f i<int> d<m>e<e> s<hex> a[ … ] o{ <hexkey> v … }`
 (object members sorted by key; a string or a member name may instead be `q<hex of the literal's body>`:
 the spelling a foreign peer put on the wire, which the driver turns into the string it denotes with the
@@ -288,6 +299,117 @@ def showEvent (e : Event) : String := s!"s{hexB e.name} s{hexB e.id} s{hexB e.re
 def showScan (r : List Event × Bool) : String :=
   " ".intercalate ([s!"ev{r.1.length}"] ++ r.1.map showEvent ++ [if r.2 then "malformed" else "ok"])
 
+/-! ## foreign SSE framing, paged lists: parsing and describing -/
+
+def pEol : P Eol
+  | "l" :: r => some (.lf, r)
+  | "c" :: r => some (.crlf, r)
+  | _ => none
+
+/-- `x<hex> <l|c>` -/
+def pRawLine : P (Bytes × Eol) := fun ts =>
+  match ts with
+  | t :: r => do
+    let b ← pHexTok "x" t
+    let (e, r) ← pEol r
+    some ((b, e), r)
+  | [] => none
+
+/-- `s<key> s<pad> x<val> <l|c>` -/
+def pFLine : P FLine := fun ts => do
+  let (k, r) ← pStr ts
+  let (pad, r) ← pStr r
+  match r with
+  | t :: r => do
+    let v ← pHexTok "x" t
+    let (e, r) ← pEol r
+    some ({ key := k, pad := pad, val := v, eol := e }, r)
+  | [] => none
+
+/-- `( <line>* ) <l|c>` -/
+def pFEvent : P FEvent
+  | "(" :: r =>
+    match pMany pFLine r with
+    | (ls, ")" :: r) => (pEol r).map (fun (e, r) => ({ lines := ls, endEol := e }, r))
+    | _ => none
+  | _ => none
+
+def eolMix (es : List Eol) : String :=
+  if es.all (· == .lf) then "every line ended by LF"
+  else if es.all (· == .crlf) then "every line ended by CRLF"
+  else "lines ended by a mix of LF and CRLF"
+
+def fstreamEols (es : List FEvent) : List Eol := es.flatMap (fun e => e.lines.map (·.eol) ++ [e.endEol])
+
+/-- what a foreign stream exercises, for the clause text -/
+def fstreamFeatures (es : List FEvent) : String :=
+  let ls := es.flatMap (·.lines)
+  let has (p : FLine → Bool) := ls.any p
+  ", ".intercalate ([eolMix (fstreamEols es)] ++
+    (if has (fun l => l.key == []) then ["comment lines"] else []) ++
+    (if es.any (fun e => (e.lines.filter (fun l => l.key == sse_dataKey)).length > 1) then ["data over several lines"] else []) ++
+    (if has (fun l => l.key == sse_retryKey) then ["retry lines"] else []) ++
+    (if has (fun l => !sseKeys.contains l.key && l.key != []) then ["unknown fields"] else []) ++
+    (if has (fun l => sseKeys.contains l.key && l.pad != [32]) then ["no or several blanks after the colon"] else []))
+
+structure PgState where
+  ps : Nat := 1
+  tools : List Bytes := []
+  prompts : List Bytes := []
+  resources : List Bytes := []
+  templates : List Bytes := []
+deriving Inhabited
+
+def PgState.get (p : PgState) : RKind → List Bytes
+  | .listTools => p.tools
+  | .listPrompts => p.prompts
+  | .listResources => p.resources
+  | .listResourceTemplates => p.templates
+  | _ => []
+
+def PgState.set (p : PgState) (k : RKind) (l : List Bytes) : PgState :=
+  match k with
+  | .listTools => { p with tools := l }
+  | .listPrompts => { p with prompts := l }
+  | .listResources => { p with resources := l }
+  | .listResourceTemplates => { p with templates := l }
+  | _ => p
+
+def pCursor : String → Option Cursor
+  | "-" => some .first
+  | t =>
+    if t.startsWith "c" then (pHexTok "c" t).map .after
+    else if t.startsWith "g" then (pHexTok "g" t).map (fun b => if b == [] then .first else .garbage)
+    else none
+
+/-- where a cursor stands relative to the registry, for the clause text -/
+def cursorPos (keys : List Bytes) : Cursor → String
+  | .first => "a request without cursor"
+  | .garbage => "a cursor that does not decode"
+  | .after uid =>
+    let n := keys.length
+    let below := (keys.filter (fun k => !keyLt uid k)).length   -- keys not above uid
+    if n == 0 then "a well-formed cursor against an empty registry"
+    else if below == n then
+      (if keys.getLast? == some uid then s!"a cursor naming the last of {n} keys (nothing above it: the page is empty)"
+       else s!"a cursor naming a uid beyond the last of {n} keys (the page is empty)")
+    else if keys.contains uid then s!"a cursor naming key {below} of {n}"
+    else if below == 0 then s!"a cursor naming a uid below the first of {n} keys"
+    else s!"a cursor naming a uid between keys {below} and {below + 1} of {n}"
+
+def showPage (r : ROut × Option Bytes) : String :=
+  match r.1 with
+  | .errorInstead => "error"
+  | .sent (.arr items) =>
+    " ".intercalate (["arr", toString items.length] ++ items.map (fun v => match v with | .str b => "s" ++ hexB b | _ => "?") ++
+      ["nc", match r.2 with | some u => "s" ++ hexB u | none => "-"])
+  | .sent _ => "null"
+
+def memberName (k : RKind) : String :=
+  match k with
+  | .listTools => "tools" | .listPrompts => "prompts" | .listResources => "resources"
+  | .listResourceTemplates => "resourceTemplates" | _ => "?"
+
 /-! ## monitors -/
 
 def two53 : Int := 9007199254740992
@@ -418,6 +540,7 @@ structure DState where
   mnoBatch : Bool := false
   eofFed : Bool := false           -- harness closed the input after the fed frames
   eofSeen : Bool := false          -- Read has reported the end of the stream
+  pg : PgState := {}               -- paged lists: the registries of the server under test
 
 def frameElems : JVal → Option (List JVal × Bool)
   | .arr l => some (l, true)
@@ -678,6 +801,56 @@ def stepWire (d : DState) (toks : List String) (impl : String) : DState × Verdi
         else none
       (d, { model := model, violated := viol })
     | none => bad d
+  | "sse.lines" :: r =>
+    -- arbitrary LF-free lines, each with its own line end, optionally an unterminated rest (`e x<hex>`):
+    -- the implementation scans the stream as framed and the same lines ended by LF
+    match pMany pRawLine r with
+    | (ls, tl) =>
+      match (match tl with
+        | [] => some []
+        | ["e", x] => pHexTok "x" x
+        | _ => none : Option Bytes) with
+      | some rest =>
+        let bytes := renderLines ls ++ rest
+        let a := showScan (scanEvents bytes)
+        let b := showScan (scanEvents (frame (ls.map (·.1)) ++ rest))
+        let model := "x" ++ hexB bytes ++ " " ++ a ++ " | " ++ b
+        let viol :=
+          if d.pid != "C19" then none
+          else if impl == "panic" then some (pfx d "decode_total: scanEvents panicked on input bytes")
+          else if impl == "hang" then some (pfx d "decode_total: scanEvents did not return on input bytes")
+          else if ls.all (fun p => !p.1.contains LF) && !rest.contains LF then
+            match impl.splitOn " | " with
+            | [ia, ib] =>
+              let sa := " ".intercalate ((words ia).drop 1)
+              if sa == ib then none
+              else some (pfx d s!"sse_eol_irrelevant: scanEvents reads an event stream with {eolMix (ls.map (·.2))} differently from the same lines ended by LF" ++
+                (if lastTok sa == "malformed" && lastTok ib != "malformed" then " (it reports a malformed event)" else ""))
+            | _ => some (pfx d "bad-observation")
+          else none
+        (d, { model := model, violated := viol })
+      | none => bad d
+  | "sse.frn" :: r =>
+    -- an event stream as a foreign peer frames it; the harness is that peer
+    match (match pMany pFEvent r with | (es, []) => some es | _ => none : Option (List FEvent)) with
+    | some es =>
+      let bytes := renderStream es
+      let model := "x" ++ hexB bytes ++ " " ++ showScan (scanEvents bytes)
+      let viol :=
+        if d.pid != "C19" then none
+        else if impl == "panic" then some (pfx d "decode_total: scanEvents panicked on input bytes")
+        else if impl == "hang" then some (pfx d "decode_total: scanEvents did not return on input bytes")
+        else if es.all (fun e => e.lines.all wfFLine) then
+          let want := showScan ((es.map FEvent.denote).filter (fun e => !e.isEmpty), false)
+          match itoks with
+          | _ :: rest =>
+            if " ".intercalate rest == want then none
+            else some (pfx d s!"sse_roundtrip_any_eol: a well-formed event stream of a foreign peer ({fstreamFeatures es}) is not scanned to the events it denotes" ++
+              (if lastTok impl == "malformed" then ": scanEvents reports a malformed event" else ""))
+          | _ => some (pfx d "bad-observation")
+        else none
+      (d, { model := model, violated := viol })
+    | none => bad d
   | ["sse.spaces"] =>
     (d, { model := "x" ++ hexB (([9, 10, 11, 12, 13, 32] : Bytes) ++ spaceSeqs.flatten) })
   ----------------------------------------------------------------- content
@@ -837,6 +1010,38 @@ def stepWire (d : DState) (toks : List String) (impl : String) : DState × Verdi
             else if nilres then nilResultViol d method impl
             else some (pfx d "required_members_present: no result") })
     | none => bad d
+  ----------------------------------------------------------------- paged lists on a real session
+  | ["r.pg.new", ps] =>
+    match ps.toNat? with
+    | some n => ({ d with pg := { ps := n } }, { model := "ok" })
+    | none => bad d
+  | "r.pg.add" :: method :: r =>
+    match rkindOf method, pMany pStr r with
+    | some k, (uids, []) =>
+      if k.isPaged then ({ d with pg := d.pg.set k (uids.foldl (fun l u => keyInsert u l) (d.pg.get k)) }, { model := "ok" }) else bad d
+    | _, _ => bad d
+  | "r.pg.rm" :: method :: r =>
+    match rkindOf method, pMany pStr r with
+    | some k, (uids, []) =>
+      if k.isPaged then ({ d with pg := d.pg.set k ((d.pg.get k).filter (fun u => !uids.contains u)) }, { model := "ok" }) else bad d
+    | _, _ => bad d
+  | ["r.pg.list", method, cur] =>
+    -- the list member of the result AS WRITTEN ON THE WIRE: arr <n> <uids> nc <uid|-> / null / missing / error
+    match rkindOf method, pCursor cur with
+    | some k, some c =>
+      if !k.isPaged then bad d else
+      let keys := d.pg.get k
+      let page := listPage k (fun u => .str u) keys d.pg.ps c
+      let viol :=
+        if d.pid != "C19" then none
+        else match itoks.head? with
+          | some "null" => some (pfx d s!"required_lists_present: \"{memberName k}\":null in the {method} result on the wire — {cursorPos keys c}, page size {d.pg.ps}: the list member must be an array" ++
+              (if (pageSeq keys c).isEmpty then " (here the EMPTY array)" else ""))
+          | some "missing" => some (pfx d s!"required_lists_present: the {method} result on the wire has no \"{memberName k}\" member — {cursorPos keys c}, page size {d.pg.ps}")
+          | some "other" => some (pfx d s!"required_lists_present: the \"{memberName k}\" member of the {method} result on the wire is not an array — {cursorPos keys c}, page size {d.pg.ps}")
+          | _ => none
+      (d, { model := showPage page, violated := viol })
+    | _, _ => bad d
   ----------------------------------------------------------------- ioConn
   | ["io.new", cap] =>
     match cap.toNat? with
@@ -1037,6 +1242,8 @@ def stepWire (d : DState) (toks : List String) (impl : String) : DState × Verdi
       let viol := if d.pid != "C19" then none
         else if impl == "panic" then some (pfx d s!"decode_total: the streamable client panicked on the {kind} response body {frameDesc raw} (the process crashed)")
         else if impl == "hang" then some (pfx d s!"decode_total: the streamable client's call neither returned nor failed on the {kind} response body {frameDesc raw}")
+        else if kind.startsWith "sse." && model == "ok" && impl == "error" then
+          some (pfx d s!"sse_roundtrip_any_eol: the streamable client's call failed although its response arrived in a well-formed event stream (framing {kind.drop 4}: a peer may end lines in CRLF, send comments, ids, retry and split data)")
         else none
       (d, { model := model, violated := viol })
     | _ => bad d
